@@ -294,9 +294,9 @@ pub fn expand(text: &str, cfg: &str) -> Class {
         Err(e) => Class::Panic(format!("generator: {}", panic_text(e))),
         Ok(out) => {
             let s = out.to_string();
-            // the generator's own rejection of a join that does not fit the macro kind: `::std::compile_error!("..")`
+            // the generator's own rejection of a join that does not fit the macro kind: `{ extern crate core as __join_core; __join_core::compile_error!("..") }`
             let flat: String = s.chars().filter(|c| !c.is_whitespace()).collect();
-            if flat.starts_with("::std::compile_error!(") {
+            if flat.contains("__join_core::compile_error!(") {
                 return match CONFIG_REJECTIONS.iter().find(|c| s.contains(*c)) {
                     Some(c) => Class::ConfigReject(c.to_string()),
                     None => Class::Reject(s.clone(), s),
